@@ -359,10 +359,21 @@ func (c *xsyncMapOf[K, V]) DeleteExpired() {
 	c.items.Range(func(k K, v itemOf[V]) bool {
 		i := v
 		if i.expiredWithNow(now) {
-			c.items.Delete(k)
-			if ec != nil {
-				evictedItems = append(evictedItems, kvOf[K, V]{k, i.v})
-			}
+			// The snapshot may be stale: re-check under the key's lock and
+			// remove (and report) only the value that is really there and expired.
+			c.items.Compute(k, func(cur itemOf[V], loaded bool) (itemOf[V], bool) {
+				if !loaded {
+					return cur, true
+				}
+				if !cur.expiredWithNow(now) {
+					// k has a new value
+					return cur, false
+				}
+				if ec != nil {
+					evictedItems = append(evictedItems, kvOf[K, V]{k, cur.v})
+				}
+				return cur, true
+			})
 		}
 		return true
 	})
